@@ -1,6 +1,11 @@
 import RumaModel.Driver.StateResIO
 namespace Ruma.Driver.C06
-def handle (toks : List String) : String := Ruma.Driver.StateResIO.handleWith "c06" toks
+/-- Requests carry the number of repetitions of the real call as their second token; the model is
+evaluated once. -/
+def handle (toks : List String) : String :=
+  match toks with
+  | op :: _reps :: rest => Ruma.Driver.StateResIO.handleWith "c06" (op :: rest)
+  | _ => "bad-op"
 end Ruma.Driver.C06
 
 def main : IO Unit := Ruma.Proto.runDriver Ruma.Driver.C06.handle
